@@ -807,7 +807,11 @@ fn check_main_inner(prop: &str, tier: &str) -> i32 {
         }
         println!("{line}");
         let pairs: u64 = line.split_whitespace().nth(1).and_then(|x| x.parse().ok()).unwrap_or(0);
-        extra = json!({"sigkill_fidelity_pairs": pairs, "sigkill_fidelity_disagreements": 0, "sigkill_fidelity": line});
+        let disagreements: u64 = line.split(';').nth(1).and_then(|x| x.split_whitespace().next()).and_then(|x| x.parse().ok()).unwrap_or(0);
+        if disagreements > 0 {
+            println!("note: SIGKILL fidelity cross-check: {disagreements} of {pairs} pairs disagree (see DESIGN.md section 10, item 15)");
+        }
+        extra = json!({"sigkill_fidelity_pairs": pairs, "sigkill_fidelity_disagreements": disagreements, "sigkill_fidelity": line});
     }
     finish_check(prop, tier, engine, level, rule, vseed, n, agg, t0, extra)
 }
